@@ -583,6 +583,11 @@ class PathEnumerator:
                 return "str"  # `out = ""` … `out += f"…"`: the text "".join(…) builds
             if v is not None and T.is_call_to(v, "builtins.list", "builtins.set", "builtins.dict") and not v[2] and not v[3]:
                 return T.refname(v[1]).rsplit(".", 1)[-1]
+            # a list an earlier collector loop filled: this loop extends it (`[*first, *second]`)
+            if v is not None and v[0] == "comp" and v[1] == "list":
+                return "list"
+            if v is not None and v[0] == "list" and v[1] and all(x[0] == "star" and x[1][0] == "comp" and x[1][1] == "list" for x in v[1]):
+                return "list"
             return None
 
         def scan(stmts, conds) -> bool:
@@ -638,21 +643,53 @@ class PathEnumerator:
         if not scan(list(s.body), []) or not records:
             return False
         names = [r[0] for r in records]
-        if len(set(names)) != len(names):
-            return False
         tsrc = ast.unparse(s.target)
-        for name, kind, conds, payload, envr in records:
+
+        def element(kind, payload, envr):
+            if kind == "dict":
+                return ("pair", ev.expr(payload[0], envr), ev.expr(payload[1], envr))
+            return ev.expr(payload[0], envr)
+
+        built = []
+        done = set()
+        for n, (name, kind, conds, payload, envr) in enumerate(records):
+            if n in done:
+                continue
+            elt = element(kind, payload, envr)
+            if names.count(name) == 2:
+                # `if C: acc.append(X)` / `else: acc.append(Y)`: one element per item, chosen by C
+                m = next(k for k in range(len(records)) if k != n and records[k][0] == name)
+                _, kind2, conds2, payload2, envr2 = records[m]
+                if not (m > n and kind2 == kind and kind != "str" and conds and conds2 and len(conds) == len(conds2)
+                        and all(a[0] is b[0] and a[1] == b[1] for a, b in zip(conds[:-1], conds2[:-1]))
+                        and conds[-1][0] is conds2[-1][0] and conds[-1][1] is True and conds2[-1][1] is False):  # fmt: skip
+                    return False
+                elt2 = element(kind2, payload2, envr2)
+                test = ev.expr(conds[-1][0], conds[-1][2])
+                if kind == "dict":
+                    if elt[1] != elt2[1]:
+                        return False
+                    elt = ("pair", elt[1], ("ifexp", test, elt[2], elt2[2]))
+                else:
+                    elt = ("ifexp", test, elt, elt2)
+                conds = conds[:-1]
+                done.add(m)
+            elif names.count(name) != 1:
+                return False
             cterms = []
             for test, pol, envc in conds:
                 tm = ev.expr(test, envc)
                 cterms.append(tm if pol else T.negate(tm))
-            if kind == "dict":
-                elt = ("pair", ev.expr(payload[0], envr), ev.expr(payload[1], envr))
-            else:
-                elt = ev.expr(payload[0], envr)
             comp = ("comp", kind, elt, ((it, tsrc),), tuple(cterms))
             if kind == "str":
                 comp = ("call", ("attr", ("const", ""), "join"), (("comp", "gen", elt, ((it, tsrc),), tuple(cterms)),), ())
+            prior = st.env.get(name)
+            if kind == "list" and prior is not None and prior[0] == "comp":
+                comp = ("list", (("star", prior), ("star", comp)))
+            elif kind == "list" and prior is not None and prior[0] == "list" and prior[1]:
+                comp = ("list", prior[1] + (("star", comp),))
+            built.append((name, comp))
+        for name, comp in built:
             st.env[name] = comp
             st.events.append(("assign", name, comp))
         return True
@@ -881,6 +918,11 @@ class PathEnumerator:
                         c2 = cur.fork()
                         self._record_attempt(b, c2)
                         ht = ev.expr(h.type, c2.env) if h.type is not None else T.ref("builtins.BaseException")
+                        if ht[0] == "ref" and self.prog.modules.get(ht[1].rpartition(".")[0]) is not None:
+                            # `except _EXHAUSTION:` with the class tuple hoisted into a module-level constant
+                            items = flatten_display(self.prog, ht)
+                            if items is not None and all(x[0] == "ref" for x in items):
+                                ht = ("tuple", tuple(items))
                         c2.events.append(("caught", ht, i))
                         if h.name:
                             c2.env[h.name] = ("exc", ht)
